@@ -506,6 +506,18 @@ def fcmp(op, a, b):
     return _mk(op, (a, b), 'B')
 
 
+def fp_from_bv(a, signed):
+    """binary64 nearest (RNE) to the integer value of a bit-vector"""
+    if a.op == 'const':
+        return fconst(float(_tosigned(a.val, a.sort[1]) if signed else a.val))
+    return _mk('to_fp_sbv' if signed else 'to_fp_ubv', (a,), 'F')
+
+
+def fp_to_bv(a, w, signed):
+    """C-style conversion (round toward zero) of a binary64 to a w-bit integer (unspecified outside the range)"""
+    return _mk('fp.to_sbv' if signed else 'fp.to_ubv', (a,), ('BV', w), w)
+
+
 def fpred(op, a):
     """fp.isNaN fp.isInfinite fp.isZero fp.isNegative"""
     return _mk(op, (a,), 'B')
@@ -630,6 +642,12 @@ def to_smt(assertions, logic=None, extra_decls=(), get_model=False, inline_limit
                 body = u
         elif op in ('fp.add', 'fp.sub', 'fp.mul', 'fp.div', 'fp.sqrt'):
             body = f'({op} RNE ' + ' '.join(a) + ')'
+        elif op == 'to_fp_ubv':
+            body = f'((_ to_fp_unsigned 11 53) RNE {a[0]})'
+        elif op == 'to_fp_sbv':
+            body = f'((_ to_fp 11 53) RNE {a[0]})'
+        elif op in ('fp.to_ubv', 'fp.to_sbv'):
+            body = f'((_ {op} {n.val}) RTZ {a[0]})'
         else:  # bv*, fp.* predicates
             body = f'({op} ' + ' '.join(a) + ')'
         nm = _name(n)
@@ -722,6 +740,12 @@ def evaluate(roots, env, exact=False):
         elif op == 'bv2real':
             w = n.args[0].sort[1]
             v = _tosigned(a[0], w) if n.val else a[0]
+        elif op == 'to_fp_ubv':
+            v = float(a[0])
+        elif op == 'to_fp_sbv':
+            v = float(_tosigned(a[0], n.args[0].sort[1]))
+        elif op in ('fp.to_ubv', 'fp.to_sbv'):
+            v = int(a[0]) & _mask(n.val) if (a[0] == a[0] and abs(a[0]) != float('inf')) else 0
         elif op == 'fp.add':
             v = a[0] + a[1]
         elif op == 'fp.sub':
